@@ -93,13 +93,15 @@ let rec handle ws = match ws with
           | Ok d -> hd_line (bytes_of_nlist d) | Err e -> "err " ^ huff_err_s e | Panic _ -> "panic")
       | Err _ -> "err" | Panic _ -> "panic") in
     m ^ " | " ^ sp
-  | ["ps.rt"; size; len; seed] ->
+  | ["ps.rt"; size; len; seed; flags] ->
     let sz = int_of_string size in
+    let fl = int_of_string flags in
     let s = gen (Int64.of_string seed) (int_of_string len) in
     let he = native_huff_encode s in
-    let enc = Bytes.cat (native_pi_encode (sz - 1) 1 (Bytes.length he)) he in
-    let sp = if sz < 2 || sz > 8 then "**" else rt_line enc s "7a7a" in
-    let m = if Bytes.length s > model_limit then sp else (match ps_encode (n_of_int sz) N0 (nlist_of_bytes s) with
+    let fits = sz >= 2 && sz <= 8 && fl < (1 lsl (8 - sz)) in
+    let sp = if not fits then "**" else
+      rt_line (Bytes.cat (native_pi_encode (sz - 1) (2 * fl + 1) (Bytes.length he)) he) s "7a7a" in
+    let m = if Bytes.length s > model_limit then sp else (match ps_encode (n_of_int sz) (n_of_int fl) (nlist_of_bytes s) with
       | Ok e -> (match ps_decode (n_of_int sz) (e @ [n_of_int 122; n_of_int 122]) with
           | Ok (v, rest) -> rt_line (bytes_of_nlist e) (bytes_of_nlist v) (hex_of_bytes rest)
           | Err PsUnexpectedEnd -> "err end"
